@@ -249,6 +249,22 @@ theorem retired_all_done {c : MCfg} {m : MState} (hn : 0 < c.n) (hm : MReachable
   simp only [mstep, hg, Option.map_eq_none_iff] at this
   exact this
 
+/-! ### `retire` against the one-run system (whose `Drop` path is tied to the code by trace acceptance) -/
+
+/-- While the old run's recovery thread is idle, starting the pool again leaves the old run exactly where the four
+steps of `Drop` would leave it — the part of `step` that real event logs exercise on every dropped pool. (`start`
+differs from `Drop` only in not taking the `threads` mutex, i.e. in not waiting for `recov = waiting`.) -/
+theorem retire_eq_drop {c : Cfg} {s : State} (hc : s.caller = .idle) (hl : s.life = .started ∨ s.life = .stopped)
+    (hr : s.recov = .waiting) :
+    run c s [.dropBegin, .dropDetachRecovery, .dropDetach, .dropSender] = some (retire s) := by
+  rcases hl with hl | hl <;> simp [run, runWith, step, afterRecoveryHandle, retire, hc, hl, hr]
+
+/-- Hence, in that case, the retired run is a reachable state of the one-run system and every one-run theorem of
+`Props/C08.lean` (among them `panic_recovery_restores`) applies to it as it stands. -/
+theorem retire_reachable {c : Cfg} {s : State} (h : Reachable c s) (hc : s.caller = .idle)
+    (hl : s.life = .started ∨ s.life = .stopped) (hr : s.recov = .waiting) : Reachable c (retire s) :=
+  h.run (retire_eq_drop hc hl hr)
+
 /-! ### Non-vacuity -/
 
 /-- N = 1: task 0 of the first run is still queued when the pool is started again without `stop`; the old worker
